@@ -116,9 +116,11 @@ Print Assumptions c15_quicksort_sorted_given_partition.
    (loop invariants of the two partition loops, the ninther/medianOfThree ordering and the
    duplicate-protection branch of srt_do_pivot).  Everything else on the path (insertion
    sort, heap sort, the recursion of quickSort, the frame/permutation facts) is proved.
-   At run time the monitor checks sortedness of the Go result on every generated case and
-   the Go result equals the model result (keys, values, number of Less calls), so on all
-   tested inputs the conclusion holds for the model as well. *)
+   At run time (vlib/c15.py) the missing lemma is TESTED, not proved: srt_do_pivot of the
+   extracted model is run on >= 1500 segments (all adversarial families, lo > 0, tails) and
+   the three-zone postcondition is checked; the monitor checks sortedness of the Go result
+   on every generated case and the Go result equals the model result (keys, values, number
+   of Less calls). *)
 Theorem c15_sliceby_sorted_partial :
   forall (K V : Type) (less : K -> K -> bool), c15_strict_weak_order less ->
   srt_partition_ok (V:=V) less ->
